@@ -11,6 +11,7 @@ func init() {
 	vpRegister("VPH_C14_nfs", VPH_C14_nfs)
 	vpRegister("VPH_C14_mount", VPH_C14_mount)
 	vpRegister("VPH_C14_rpc", VPH_C14_rpc)
+	vpRegister("VPH_C14_connection_rate_limited", VPH_C14_connection_rate_limited)
 }
 
 // vpC14Env builds a server in one of the states of the statement.
@@ -66,7 +67,9 @@ func VPH_C14_nfs() {
 	} else {
 		proc = uint32(sel)
 	}
-	g := &vpGen{handles: []uint64{hd, hx, hl}, names: []string{"x", "new"}, wild: vpTier() == 1, maxData: 2}
+	// the handle menu includes one that is no longer tracked (stale), in either position of the
+	// two-handle procedures
+	g := &vpGen{handles: []uint64{hd, hx, hl, 0x7fffffff00000001}, names: []string{"x", "new"}, wild: vpTier() == 1, maxData: 2}
 	var body []byte
 	argSel := vpChoose("args", 0, 2)
 	switch argSel {
@@ -235,4 +238,43 @@ func VPH_C14_rpc() {
 	}
 	vpAssert(vpAnd(h.accepted, h.acceptStat == PROG_UNAVAIL), "unknown-program-is-PROG_UNAVAIL")
 	vpAssert(rd.done(), "no-bytes-after-rpc-error")
+}
+
+// VPH_C14_connection_rate_limited: calls refused by the rate limiter on a connection each get a
+// well-formed MSG_DENIED reply that echoes the XID of *that* call (real connection loop, three calls
+// with symbolic xids, per-address burst of one: the second and third are refused).
+func VPH_C14_connection_rate_limited() {
+	fs := vpStdTree()
+	cfg := DefaultRateLimiterConfig()
+	cfg.GlobalRequestsPerSecond = 1000
+	cfg.PerIPRequestsPerSecond, cfg.PerIPBurstSize = 1, 1
+	cfg.PerConnectionRequestsPerSecond, cfg.PerConnectionBurstSize = 1000, 1000
+	env := vpServer(fs, ExportOptions{EnableRateLimiting: true, RateLimitConfig: &cfg})
+	env.srv.options.UseRecordMarking = true
+	vpSetClock(1_000_000_000)
+	xids := []uint32{vpU32("xid1"), vpU32("xid2"), vpU32("xid3")}
+	var in []byte
+	for _, x := range xids {
+		in = append(in, vpClientCall(x, NFS_PROGRAM, NFS_V3, NFSPROC3_NULL, nil)...)
+	}
+	conn := &vpConn{in: in, remote: "10.0.0.5:800"}
+	env.srv.handleConnectionWithRecordMarking(conn, env.h)
+	_, out := conn.served()
+	replies, ok := vpSplitRecords(out)
+	vpAssert(vpAnd(ok, len(replies) == 3), "every-call-answered")
+	denied := 0
+	for k, rep := range replies {
+		rd := &vpRd{b: rep}
+		h := vpRPCReplyHeader(rd)
+		vpAssert(!rd.bad, "reply-header-well-formed")
+		vpAssert(rd.done(), "no-trailing-bytes")
+		if k < len(xids) {
+			vpAssert(h.xid == xids[k], "each-reply-echoes-its-own-xid")
+		}
+		if !h.accepted {
+			denied++
+		}
+	}
+	vpAssert(denied == 2, "burst-of-one-admits-one")
+	vpReach("rate-limited-replies")
 }
